@@ -25,7 +25,10 @@ RULE = ("codec cases: line lists / texts over a vocabulary of plain, indented, t
         "arbitrary encoded texts through the decoders (malformed stream: missing leading space, tab continuation, "
         "empty continuation line).  document cases: Copyright() objects built through the public API "
         "(header properties and header[key]=value, FilesParagraph.create, LicenseParagraph.create, comment, "
-        "add_files_paragraph/add_license_paragraph) with 0-3 Files and 0-3 License paragraphs, dumped, re-read with "
+        "add_files_paragraph/add_license_paragraph) with 0-3 Files and 0-3 License paragraphs - 'clean' (all values in "
+        "the exact round-trip domain wf_copyright: empty lines, indentation, tabs, non-ASCII, '..', single/multi-"
+        "element lists), 'lossy' (license lines that are whitespace-only or a lone '.': domain wf_copyright_weak, the "
+        "document must survive) and 'dirty' (anything, incl. values the setters reject) -, dumped, re-read with "
         "Copyright(<str | list of lines with/without line ends | StringIO>, strict=True|False), all properties read "
         "back, dumped again; a separate stream of hand-written/mutated copyright texts (Format-Specification, http "
         "format URL, paragraphs lacking Files/License/Copyright, empty Files, no paragraphs) through Copyright(). "
@@ -38,10 +41,15 @@ TRUSTED = ["model coq/Copyright/Fields.v + Doc.v: hand transcription of the copy
            "str.splitlines/strip/split as modelled by coq/Lib/PyStr.v with the tables of Gen/PyChars.v",
            "_CURRENT_FORMAT/_KNOWN_FORMATS regenerated from the source AST (coq/Gen/CopyrightConsts.v)"]
 ASSUMPTIONS = ["field names are ASCII; text is str (the bytes/encoding path of Deb822 is C02's)",
-               "values are outside the round-trip domain (holds not judged, agree still compared) when: a line "
-               "contains a Python line-boundary character other than the LF separators; a license text line is "
-               "whitespace-only or a lone '.'; a license text ends in LF; a free-text field (Copyright, Comment, "
-               "Source, Disclaimer, header[key]) is not a valid deb822 value with a trimmed first line; "
+               "holds has two tiers for documents: on wf_copyright the re-read document must show the same values, "
+               "the second dump must be identical and the Files/License paragraphs must read as the values put in; "
+               "on wf_copyright_weak (license lines may be whitespace-only or a lone '.') the same except that the "
+               "values are compared before/after only",
+               "values are outside both domains (holds not judged, agree still compared) when: a line "
+               "contains a Python line-boundary character other than the LF separators; a license text ends in LF; "
+               "a free-text field (Copyright, Comment, Source, Disclaimer, header[key]) is not a valid deb822 value "
+               "with a trimmed first line (C02's valid_value; in particular a whitespace-only continuation line, "
+               "which Deb822.__setitem__ accepts, ends the paragraph when re-read - C08's stated limit); "
                "a list item has surrounding whitespace; Format is one of the URLs Header() rewrites",
                "logging output (warnings) is not observed"]
 
@@ -118,6 +126,15 @@ def _clean_text(rng):
     return "\n".join(ls)
 
 
+def _lossy_text(rng):
+    """a text the ' .' encoding does not carry exactly (whitespace-only lines, lone '.'), but with which
+    a document must still survive dump and re-parse"""
+    ls = [rng.choice(PLAIN + ["", " ", "  ", "\t", ".", ".", "\xa0", "　 "]) for _ in range(rng.randint(1, 6))]
+    if not ls[-1]:
+        ls.append(rng.choice([" ", ".", "x"]))
+    return "\n".join(ls)
+
+
 def _encoded(rng):
     """something that looks like a stored multi-line value, possibly malformed"""
     ls = _lines(rng, 0, 5, 0.3)
@@ -164,9 +181,11 @@ def _freetext(rng, bad=0.2):
     return v
 
 
-def _lic(rng, bad=0.25):
+def _lic(rng, bad=0.25, lossy=False):
     syn = rng.choice(SYNOPSES[:6]) if rng.random() >= bad else rng.choice(SYNOPSES)
     r = rng.random()
+    if lossy and r > 0.3:
+        return {"lic": [syn, _lossy_text(rng)]}
     text = None if r < 0.1 else "" if r < 0.2 else _text(rng, bad) if bad else _clean_text(rng)
     return {"lic": [syn, text]}
 
@@ -187,7 +206,7 @@ def _hval(rng, kind, clean):
         return {"l": [rng.choice(items) for _ in range(rng.choice([0, 1, 1, 2, 3]))]}
     if kind == "text":
         return {"s": _freetext(rng, 0.6 if bad else 0.0)}
-    return _lic(rng, 0.5 if bad else 0.0)
+    return _lic(rng, 0.5 if bad else 0.0, lossy=(clean == "lossy"))
 
 
 def _hops(rng, clean):
@@ -213,20 +232,21 @@ def _files_spec(rng, clean):
         items = SS_ITEMS if bad else SS_ITEMS[:11]
         files = {"l": [rng.choice(items) for _ in range(rng.choice([1, 1, 2, 3]))]}
     cop = None if (bad and rng.random() < 0.1) else {"s": _freetext(rng, 0.4 if bad else 0.0)}
-    lic = None if (bad and rng.random() < 0.1) else _lic(rng, 0.4 if bad else 0.0)
+    lic = None if (bad and rng.random() < 0.1) else _lic(rng, 0.4 if bad else 0.0, lossy=(clean == "lossy"))
     cm = {"s": _freetext(rng, 0.3 if bad else 0.0)} if rng.random() < 0.2 else None
     return ["files", files, cop, lic, cm]
 
 
 def _license_spec(rng, clean):
     bad = (not clean) and rng.random() < 0.3
-    lic = None if (bad and rng.random() < 0.1) else _lic(rng, 0.4 if bad else 0.0)
+    lic = None if (bad and rng.random() < 0.1) else _lic(rng, 0.4 if bad else 0.0, lossy=(clean == "lossy"))
     cm = {"s": _freetext(rng, 0.3 if bad else 0.0)} if rng.random() < 0.2 else None
     return ["license", lic, cm]
 
 
 def _doc_case(rng):
-    clean = rng.random() < 0.6
+    r = rng.random()
+    clean = True if r < 0.5 else "lossy" if r < 0.65 else False     # exact domain / survival domain / anything
     specs = []
     nf, nl = rng.choice([0, 1, 1, 2, 3]), rng.choice([0, 0, 1, 2, 3])
     kinds = ["f"] * nf + ["l"] * nl
@@ -606,6 +626,11 @@ def _emit(case, obs):
 
 # ---------------------------------------------------------------------------
 
+def _mode(case):
+    c = case.get("clean")
+    return "clean" if c is True else "lossy" if c == "lossy" else "dirty"
+
+
 def classify(case, obs):
     k = case["kind"]
     if k in ("lines", "text"):
@@ -619,10 +644,10 @@ def classify(case, obs):
     if k in ("ss", "lb", "ssfrom", "lbfrom"):
         return "%s/%s" % (k, "ok" if obs["enc"][0] == "ok" else obs["enc"][1])
     if k == "doc":
-        shape = "%s/F%dL%d" % ("clean" if case.get("clean") else "dirty",sum(1 for s in case["specs"] if s[0] == "files"),
+        shape = "%s/F%dL%d" % (_mode(case),sum(1 for s in case["specs"] if s[0] == "files"),
                             sum(1 for s in case["specs"] if s[0] == "license"))
         if "build_err" in obs:
-            return "doc/%s/build:%s" % ("clean" if case.get("clean") else "dirty", obs["build_err"])
+            return "doc/%s/build:%s" % (_mode(case), obs["build_err"])
         if "parse_err" in obs:
             return "doc/%s/form%d/reparse:%s" % (shape, case["form"], obs["parse_err"])
         same = obs["dump1"] == obs["dump2"]
